@@ -50,6 +50,8 @@ func runC13(c *Ctx) {
 	c.checkResultUse("O-3b parsed values used only after their error check", reached, nil)
 	c.ifaceResults = false
 	c.checkSDPSchema()
+	c.checkRejectionHasError("O-5 a rejected description is reported as an error")
+	c.checkNoSharedState("O-6 the description codec keeps no shared mutable state", "common/util", p.FnsIn("common/util"))
 	c.checkResultUse("O-3 description used only after its error check", scope, func(call *ssa.Call) bool {
 		if c.Thorough {
 			// thorough: every call, anywhere, that yields a *SessionDescription with an error
@@ -186,4 +188,88 @@ func reflectTag(tag, key string) string {
 		}
 	}
 	return ""
+}
+
+// checkRejectionHasError: in every client/proxy function that returns
+// (pointer, error) and feeds one of its parameters - the untrusted description -
+// to a call that can fail, no return reachable from that call's failure edge
+// yields (nil, possibly-nil error): callers dereference the pointer behind
+// err == nil (O-3), so a swallowed or overwritten rejection error turns a
+// malformed description into a nil dereference.
+func (c *Ctx) checkRejectionHasError(rule string) {
+	p := c.P
+	nFn, nCalls := 0, 0
+	for _, fn := range p.FnsIn("client/lib", "proxy/lib") {
+		res := fn.Signature.Results()
+		ei := errResultIndex(fn.Signature)
+		if res.Len() != 2 || ei != 1 {
+			continue
+		}
+		if _, isPtr := res.At(0).Type().Underlying().(*types.Pointer); !isPtr {
+			continue
+		}
+		// parameters that carry a description or raw message
+		untrusted := func(v ssa.Value) bool {
+			par, ok := v.(*ssa.Parameter)
+			if !ok || par.Parent() != fn {
+				return false
+			}
+			t := par.Type()
+			if pt, okp := t.(*types.Pointer); okp {
+				t = pt.Elem()
+			}
+			if n, okn := t.(*types.Named); okn && n.Obj().Name() == "SessionDescription" {
+				return true
+			}
+			return false
+		}
+		used := false
+		for _, ci := range callsIn(fn) {
+			cc, ok := ci.(*ssa.Call)
+			if !ok {
+				continue
+			}
+			cei := errResultIndex(cc.Call.Signature())
+			if cei < 0 {
+				continue
+			}
+			fed := false
+			for _, a := range callArgs(cc) {
+				if flowsLocal(a, untrusted) {
+					fed = true
+				}
+			}
+			if !fed {
+				continue
+			}
+			used = true
+			nCalls++
+			bad := nilCheckEdges(fn, false, func(v ssa.Value) bool { return errFrom(v, cc, cei) })
+			okAll := true
+			var where ssa.Instruction
+			for _, e := range bad {
+				for _, r := range returnsOf(fn) {
+					if reachPath(e.To(), r.Block(), nil) == nil {
+						continue
+					}
+					if isNilConst(retVal(r, 0)) && retMayBeNil(r, 1) {
+						okAll = false
+						where = r
+					}
+				}
+			}
+			pos := p.instrPos(cc)
+			if where != nil {
+				pos = p.instrPos(where)
+			}
+			c.check(okAll, rule, p.FnName(fn)+": failure of "+calleeName(cc)+" is returned as a non-nil error", pos, "", "after the description was rejected a path returns a nil result together with an error that may be nil (overwritten or shadowed): the caller takes it for success and dereferences nil")
+		}
+		if used {
+			nFn++
+		}
+	}
+	if nCalls == 0 {
+		c.undecided(rule, "functions fed an untrusted description", "-", "none found in client/lib and proxy/lib")
+	}
+	_ = nFn
 }
